@@ -45,7 +45,7 @@ TT = 'chainables.tree'
 
 
 def run(ctx: Ctx):
-  for r in (r1, r2, r3, r4, r5, r6, r8, r9, r10, r13, r17, r18, r19):
+  for r in (r1, r2, r3, r4, r5, r6, r8, r9, r10, r13, r17, r18, r19, r20):
     ctx.guard(r)
   from mlmverif.props import c03
   ctx.include('R-C02-7', 'every sliced aggregate sees every slice: the slices of'
@@ -518,6 +518,39 @@ def r19(ctx: Ctx):
   ctx.floor(rule, 1, n)
 
 
+def r20(ctx: Ctx):
+  rule = 'R-C02-20'
+  ctx.rule(rule, '"adding or removing slicers never changes the unsliced result, and no slice key is invented": the declaring'
+           ' methods of the pipeline come in pairs (agg = aggregate, add_agg = add_aggregate): a method of transform.py'
+           ' whose whole body is `return self.<other>(...)` hands EVERY one of its parameters on. A parameter the alias'
+           ' accepts but does not forward (disable_slicing) silently takes the default of the full method: an aggregate'
+           ' declared unsliced through the alias is sliced, and the report contains slice keys nobody asked for')
+  mi = ctx.repo.module(TR)
+  n = 0
+  for ci in mi.classes.values():
+    for name, fi in ci.methods.items():
+      body = [b for b in fi.node.body if not (isinstance(b, ast.Expr) and isinstance(b.value, ast.Constant))]
+      if not (len(body) == 1 and isinstance(body[0], ast.Return) and isinstance(body[0].value, ast.Call)
+              and isinstance(body[0].value.func, ast.Attribute) and isinstance(body[0].value.func.value, ast.Name)
+              and body[0].value.func.value.id == 'self'):
+        continue
+      a = fi.node.args
+      ps = [x.arg for x in a.posonlyargs + a.args[1:] + a.kwonlyargs] + [x.arg for x in (a.vararg, a.kwarg) if x]
+      if not ps or body[0].value.func.attr not in ci.methods:
+        continue
+      n += 1
+      used = {y.id for y in ast.walk(body[0].value) if isinstance(y, ast.Name)}
+      lost = [p_ for p_ in ps if p_ not in used]
+      what = f'{ci.name}.{name}: every parameter of the alias reaches {body[0].value.func.attr}()'
+      if lost:
+        ctx.fail(rule, fi, what,
+                 f'{ci.name}.{name} accepts {lost} but `{unparse(body[0])[:80]}` does not pass {"them" if len(lost) > 1 else "it"} on:'
+                 f' the value the caller gave is replaced by the default of {body[0].value.func.attr}() without a word', node=body[0])
+      else:
+        ctx.ok(rule, fi, what, body[0])
+  ctx.floor(rule, 2, n)
+
+
 def r4(ctx: Ctx):
   rule = 'R-C02-4'
   ctx.rule(rule, 'mask application and reporting: masks are applied to the'
@@ -941,6 +974,12 @@ from mlmverif.selfcheck import B, OK  # noqa: E402
 _T = 'chainables/transform.py'
 _F = 'chainables/tree_fns.py'
 VARIANTS = [
+    B('agg-alias-drops-disable-slicing', 'chainables/transform.py',
+      '    """Alias for aggregate."""\n    return self.aggregate(\n        fn,\n        input_keys=input_keys,\n        output_keys=output_keys,\n        disable_slicing=disable_slicing,\n    )',
+      '    """Alias for aggregate."""\n    return self.aggregate(fn, input_keys=input_keys, output_keys=output_keys)', 'R-C02-20'),
+    OK('agg-alias-forwards-positionally', 'chainables/transform.py',
+       '    """Alias for aggregate."""\n    return self.aggregate(\n        fn,\n        input_keys=input_keys,\n        output_keys=output_keys,\n        disable_slicing=disable_slicing,\n    )',
+       '    """Alias for aggregate."""\n    return self.aggregate(fn, input_keys=input_keys, output_keys=output_keys, disable_slicing=bool(disable_slicing))'),
     B('slice-fn-results-memoised', 'chainables/transform.py',
       "    slicer = tree_fns.Slicer.new(\n        input_keys=keys,\n        slice_fn=slice_fn,",
       "    if slice_fn is not None:\n      cache, user_fn = {}, slice_fn\n\n      def slice_fn(*args):\n        if args not in cache:\n          cache[args] = user_fn(*args)\n        return cache[args]\n\n    slicer = tree_fns.Slicer.new(\n        input_keys=keys,\n        slice_fn=slice_fn,", 'R-C02-18'),
